@@ -480,6 +480,8 @@ func (c *compiler) compile(tok *token) []instruction {
 		}
 	case "true", "false", "nil":
 		res = append(res, instruction{Code: codeConst, A: reg(c.Globals.Index(tok.Text))})
+	case "(end)": // omitted upper bound of a slice expression
+		res = append(res, instruction{Code: codeConst, A: reg(c.Globals.Index("nil"))})
 	case "(name)":
 		key := c.expPrefix(tok.Text)
 		if tok.Text == "$" {
